@@ -155,6 +155,23 @@ func NewReverseSuffixSearcher(
 	return s, nil
 }
 
+// leftmostFrom returns the leftmost-first match that starts at or after 'at', once a suffix
+// candidate has been confirmed (so a match exists). The confirmed start is only the leftmost
+// start of a match ending AT THAT OCCURRENCE: a match that starts earlier may end behind a
+// later occurrence (`[ab]+(1.+2|3)xyz` on "a1 b3xyz 2xyz" is [0 13], although the first
+// "xyz" confirms [3 8]). The forward DFA from 'at' gives the leftmost match's end, the
+// reverse DFA from there its start.
+func (s *ReverseSuffixSearcher) leftmostFrom(haystack []byte, at int, fwdCache, revCache *lazy.DFACache) (int, int, bool) {
+	matchEnd := s.forwardDFA.SearchAt(fwdCache, haystack, at)
+	if matchEnd > at {
+		if start := s.reverseDFA.SearchReverse(revCache, haystack, at, matchEnd); start >= 0 {
+			return start, matchEnd, true
+		}
+	}
+	// empty match at 'at', or a DFA gave up - PikeVM
+	return s.pikevm.SearchAt(haystack, at)
+}
+
 // Find searches using suffix literal prefilter + reverse DFA and returns the match.
 //
 // Algorithm (find LAST suffix for greedy semantics):
@@ -217,13 +234,8 @@ func (s *ReverseSuffixSearcher) Find(haystack []byte) *Match {
 		// Use reverse DFA to find match START position
 		matchStart := s.reverseDFA.SearchReverse(revCache, haystack, 0, revEnd)
 		if matchStart >= 0 {
-			// Forward verification: get correct greedy match end.
-			matchEnd := s.forwardDFA.SearchAt(fwdCache, haystack, matchStart)
-			if matchEnd >= 0 {
-				return NewMatch(matchStart, matchEnd, haystack)
-			}
-			// DFA failed — fallback to PikeVM
-			start, end, found := s.pikevm.SearchAt(haystack, matchStart)
+			// A match exists: return the leftmost one (see leftmostFrom)
+			start, end, found := s.leftmostFrom(haystack, 0, fwdCache, revCache)
 			if found {
 				return NewMatch(start, end, haystack)
 			}
@@ -312,13 +324,8 @@ func (s *ReverseSuffixSearcher) FindAt(haystack []byte, at int) *Match {
 		// Use reverse DFA with anti-quadratic guard to find match START position
 		matchStart := s.reverseDFA.SearchReverseLimited(revCache, haystack, at, suffixEnd, minStart)
 		if matchStart >= 0 {
-			// Forward verification: get correct greedy match end (Issue #124)
-			matchEnd := s.forwardDFA.SearchAt(fwdCache, haystack, matchStart)
-			if matchEnd >= 0 {
-				return NewMatch(matchStart, matchEnd, haystack)
-			}
-			// DFA failed — fallback to PikeVM
-			fwdStart, fwdEnd, found := s.pikevm.SearchAt(haystack, matchStart)
+			// A match exists: return the leftmost one (see leftmostFrom)
+			fwdStart, fwdEnd, found := s.leftmostFrom(haystack, at, fwdCache, revCache)
 			if found {
 				return NewMatch(fwdStart, fwdEnd, haystack)
 			}
@@ -409,11 +416,8 @@ func (s *ReverseSuffixSearcher) findIndicesAtImpl(haystack []byte, at int, fwdCa
 
 		matchStart := s.reverseDFA.SearchReverseLimited(revCache, haystack, at, suffixEnd, minStart)
 		if matchStart >= 0 {
-			matchEnd := s.forwardDFA.SearchAt(fwdCache, haystack, matchStart)
-			if matchEnd >= 0 {
-				return matchStart, matchEnd, true
-			}
-			return s.pikevm.SearchAt(haystack, matchStart)
+			// A match exists: return the leftmost one (see leftmostFrom)
+			return s.leftmostFrom(haystack, at, fwdCache, revCache)
 		}
 		if matchStart == lazy.SearchReverseLimitedQuadratic {
 			return s.pikevm.SearchAt(haystack, at)
